@@ -68,7 +68,7 @@ class Prog:
         return pre + ["init", "bind 0", "constraints"] + self.lines + ["events", "quit"]
 
 
-def body_storm(rng, plan, n_wide, fields, depth, gcs, mutators=1, eph=0, fork=False, nonmoving=False):
+def body_storm(rng, plan, n_wide, fields, depth, gcs, mutators=1, eph=0, fork=False, nonmoving=False, forks=1):
     """wide objects (packet storms from ProcessSlots splitting), deep lists, ephemeron chains, optional fork"""
     L = []
     p = L.append
@@ -119,7 +119,7 @@ def body_storm(rng, plan, n_wide, fields, depth, gcs, mutators=1, eph=0, fork=Fa
         for m in range(mutators):
             for _ in range(10):
                 alloc(m, 1, rng.choice([16, 512]), rng.randrange(0, 8))
-        if fork and g == 0:
+        if fork and g < forks:
             p("fork")
             p("events")
     return L
@@ -253,6 +253,7 @@ def annotate(evs, n):
     insts = []
     batch_credit = {}                # worker -> [index of BucketPollBatch event, stage, remaining]
     moves = defaultdict(list)        # index of BucketPollBatch -> [(pid, tag)]
+    early = defaultdict(list)        # index of a steal -> [(owner, (pid, tag))] moves whose poll is logged later
     sched_pending = {}               # tid -> stage of a BucketSchedSentinel(b=1) waiting for its BqPush
     for i, (seq, tid, k, a, b) in enumerate(evs):
         if k == K["BucketSchedSentinel"] and b == 1:
@@ -280,7 +281,7 @@ def annotate(evs, n):
             live[ky].append(ins)
             insts.append(ins)
         elif k == K["BucketPollBatch"]:
-            batch_credit[tid - 100] = [i, a, b]
+            batch_credit.setdefault(tid - 100, []).append([i, a, b])
         elif k in (K["BucketPollOk"], K["WorkerLocalPop"], K["DesignatedPop"], K["WorkerSteal"]):
             tag = b & (M40 - 1) if k == K["WorkerSteal"] else b
             ky = key_of(a, tag)
@@ -303,14 +304,24 @@ def annotate(evs, n):
                 # moved by a steal_batch_and_pop of `owner`
                 for ins in live[ky]:
                     if ins["loc"][0] == "bkt":
-                        cr = batch_credit.get(owner)
-                        if cr and cr[1] == ins["loc"][1] and cr[2] > 0:
+                        # the most recent batch poll of `owner` from that bucket, after the push, with credit left
+                        # (the logged count is a lower bound when a thief steals concurrently: fall back to the most
+                        # recent batch poll without credit)
+                        cands = [c for c in reversed(batch_credit.get(owner, ())) if c[1] == ins["loc"][1] and c[0] > ins["prod"]]
+                        cr = next((c for c in cands if c[2] > 0), cands[0] if cands else None)
+                        mv = (ins["pid"], (ins["tag"] & ~0xff) | ins["loc"][1])
+                        if cr:
                             cr[2] -= 1
-                            moves[cr[0]].append((ins["pid"], (ins["tag"] & ~0xff) | ins["loc"][1]))
+                            moves[cr[0]].append(mv)
                             ins["batch"] = cr[0]
-                            ins["loc"] = ("buf", owner)
-                            found = ins
-                            break
+                        else:
+                            # the owner's own BucketPollOk / BucketPollBatch is logged after this steal (consumer
+                            # events are logged after the operation): the move is placed right before the steal
+                            early[i].append((owner, mv))
+                            ins["batch"] = i
+                        ins["loc"] = ("buf", owner)
+                        found = ins
+                        break
             if found is not None:
                 found["cons"] = i
                 live[ky].remove(found)
@@ -319,6 +330,10 @@ def annotate(evs, n):
         seq, tid, _, _, _ = evs[bi]
         for pid, tag in lst:
             after[bi].append((seq, tid, BATCH_MOVE, pid, tag))
+    for ci, lst in early.items():
+        seq = evs[ci][0]
+        for owner, (pid, tag) in lst:
+            before[ci].append((seq, 100 + owner, BATCH_MOVE, pid, tag))
     for ins in insts:
         pi, ci = ins["prod"], ins["cons"]
         nx = next_of[pi]
@@ -403,6 +418,7 @@ def oracle(evs, rc, lines, stages, fwd_after_liveness):
     exits, surrenders = defaultdict(int), defaultdict(int)
     sched_pending = set()
     stage_of = {}
+    origin = defaultdict(list)
     open_b = {r["index"]: r["is_open_by_default"] for r in rows}
     for (seq, tid, k, a, b) in evs:
         w = tid - 100
@@ -432,6 +448,7 @@ def oracle(evs, rc, lines, stages, fwd_after_liveness):
             sched_pending.add(tid)
         elif k == K["BqPush"]:
             q[b & 0xff] += 1
+            origin[key_of(a, b)].append(("bkt", b & 0xff))
             if tid in sched_pending:
                 sched_pending.discard(tid)
             else:
@@ -440,14 +457,27 @@ def oracle(evs, rc, lines, stages, fwd_after_liveness):
         elif k in (K["WorkerLocalPush"], K["BucketSetSentinel"]):
             produced[key_of(a, b)] += 1
             stage_of[key_of(a, b)] = b & 0xff
+            if k == K["WorkerLocalPush"]:
+                origin[key_of(a, b)].append(("loc", tid))
         elif k == K["DesignatedPush"]:
             produced[key_of(a, b & (M40 - 1))] += 1
         elif k == K["BucketPollOk"]:
             q[b & 0xff] -= 1
+            og = origin[key_of(a, b)]
+            if ("bkt", b & 0xff) in og:
+                og.remove(("bkt", b & 0xff))
             if not open_b.get(b & 0xff, False):
                 out.append(("sched:poll-closed-bucket", f"a packet was polled from closed bucket {b & 0xff}"))
-        elif k == K["BucketPollBatch"]:
-            q[a] -= b
+        elif k in (K["WorkerLocalPop"], K["WorkerSteal"]):
+            # a packet that was pushed into a bucket and shows up in a local deque was moved by a batch poll
+            # (the logged batch size is only a lower bound): it leaves the bucket's count here
+            og = origin[key_of(a, b & (M40 - 1))]
+            if og:
+                o = og.pop(0)
+                if o[0] == "bkt":
+                    q[o[1]] -= 1
+                    if not open_b.get(o[1], False):
+                        out.append(("sched:poll-closed-bucket", f"a packet was batch-polled from closed bucket {o[1]}"))
         elif k == K["PacketStart"]:
             ky = key_of(a, b)
             if tid in running:
@@ -711,6 +741,12 @@ def run_check(pid, modules, theorems, keys, build_programs, argv, meta, want_for
         for k, w in found:
             if k not in keys:
                 other[k] += 1
+        if mine:
+            os.makedirs(os.path.join(E.OUT, "replay"), exist_ok=True)
+            evf = os.path.join(E.OUT, "replay", f"{pid}-{p.name}-{a.seed}.events")
+            with open(evf, "w") as f:
+                f.write("\n".join(":".join(map(str, e)) for e in r.evs))
+            case["events_file"] = evf
         for k, w in mine:
             violations.append(Violation(k, f"{w} [program {p.name}: plan {p.plan}, {p.workers} workers, yield seed {p.yseed}]",
                                         case, r.lines[-3:] + [r.verdict], None, True))
@@ -756,6 +792,14 @@ def replay(pid, path, keys):
     stages, err = regenerate_stages()
     E.run(["lake", "build", "mmtk_model"], cwd=E.LEAN_DIR)
     bad = 0
+    evf = case.get("events_file") if isinstance(case, dict) else None
+    if evf and os.path.exists(evf):
+        evs = [tuple(int(x) for x in l.split(":")) for l in open(evf).read().split()]
+        verdict, st = lean_replay(E.model_exe(), annotate(evs, workers), workers, plan == "ConcurrentImmix")
+        orc = oracle(evs, 0, [], stages, None)
+        print(f"recorded log: monitor: {verdict[:300]} oracle: {orc}")
+        if verdict.startswith("viol") or orc:
+            bad += 1
     for attempt in range(5):
         p = subprocess.run([exe], input="\n".join(lines) + "\n", capture_output=True, text=True, timeout=300)
         out = p.stdout.splitlines()
